@@ -109,6 +109,9 @@ class World:
         self.serial_noise = None  # a random.Random: send grammar-equivalent serialisations
         self.lost_barrier = None
         self.stalled = None
+        self.derived = {}  # cid -> {channel: set(nicks)}: roster reconstructed from what the client was told
+        self.ever_gone = set()  # nicks whose session ended (unannounced departures are legitimate)
+        self.derived_checks = 0
         self.actions = []  # structured actions in order (for replaying prefixes)
         self.noise_kinds = collections.Counter()
 
@@ -598,6 +601,9 @@ class World:
                 self.violate("bystander-numeric", exp.props, exp.shape,
                              "connection %s got %s" % (k, [m.raw for m in nums][:3]))
 
+        # --- announcement-derived rosters (history checker for C04, independent of the model)
+        self.update_derived(inbox, pre)
+
         # --- framing of everything the server emitted (CRLF terminated, no bare CR/LF inside)
         for k, c in self.clients.items():
             if c.bad_frames:
@@ -645,6 +651,16 @@ class World:
                     self.violate("state:" + kind, exp.props, exp.shape,
                                  "%s: model %r, server %r (after %r)"
                                  % (path, a, b, self.history[-1][1] if self.history else ""))
+            if exp.verb != "NICK":
+                # sessions that ended: this server does not announce them, the harness knows them from the
+                # history - drop them from every reconstructed roster (a later namesake is somebody else)
+                gone = set(pre.users) - set(snap["users"])
+                self.ever_gone |= gone
+                for d in self.derived.values():
+                    for ch in d:
+                        d[ch] -= gone
+            if not exp.unspec_relays:
+                self.check_derived(snap, exp)
             # resynchronise
             self.model.load_snapshot(snap)
             # connections whose user vanished / ghosts
@@ -659,6 +675,78 @@ class World:
         if snap is not None and snap.get("handler_aborts"):
             self.dead = True
         return self.violations[V0:]
+
+    def update_derived(self, inbox, pre):
+        for k, lines in inbox.items():
+            if k == 0 or k not in pre.conn and k not in self.model.conn:
+                continue
+            me = (pre.conn.get(k) or self.model.conn.get(k) or {}).get("nick")
+            d = self.derived.setdefault(k, {})
+            mynames = {}
+            for m in lines:
+                if m.verb == "353" and len(m.params) >= 4:
+                    mynames.setdefault(m.params[2], set()).update(x.lstrip("~&@%+") for x in m.params[3].split())
+            for m in lines:
+                who = (m.source or "").split("!")[0]
+                if m.verb == "JOIN" and m.params:
+                    ch = m.params[0]
+                    if who == me:
+                        d[ch] = set(mynames.get(ch, set())) | {me}
+                    elif ch in d:
+                        d[ch].add(who)
+                elif m.verb == "PART" and m.params:
+                    ch = m.params[0]
+                    if who == me:
+                        d.pop(ch, None)
+                    elif ch in d:
+                        d[ch].discard(who)
+                elif m.verb == "KICK" and len(m.params) >= 2:
+                    ch, victim = m.params[0], m.params[1]
+                    if victim == me:
+                        d.pop(ch, None)
+                    elif ch in d:
+                        d[ch].discard(victim)
+                elif m.verb == "NICK" and m.params:
+                    new = m.params[0]
+                    for ch in d:
+                        if who in d[ch]:
+                            d[ch].discard(who)
+                            d[ch].add(new)
+                    if who == me:
+                        me = new
+
+    def check_derived(self, snap, exp):
+        """the NAMES reply received on joining plus the announcements received since reconstruct the roster
+        (up to departures by disconnect, which this server does not announce)"""
+        for k, chans in self.derived.items():
+            c = self.model.conn.get(k)
+            if c is None or k not in self.clients or c["nick"] is None:
+                continue
+            me = c["nick"]
+            if me not in snap["users"]:
+                continue
+            for ch in snap["users"][me]["channels"]:
+                true = set(snap["channels"][ch]["users"]) if ch in snap["channels"] else set()
+                self.derived_checks += 1
+                if ch not in chans:
+                    self.violate("derived-roster", {"C04"}, exp.shape,
+                                 "%s is a member of %s but was never shown its own JOIN / NAMES" % (me, ch))
+                    continue
+                der = chans[ch]
+                if not true <= der:
+                    self.violate("derived-roster", {"C04"}, exp.shape,
+                                 "%s's roster of %s reconstructed from NAMES-on-join + announcements lacks %s "
+                                 "(true members %s)" % (me, ch, sorted(true - der), sorted(true)))
+                elif der - true:
+                    self.violate("derived-roster", {"C04"}, exp.shape,
+                                 "%s still believes %s to be on %s: no PART/KICK/NICK announcement reached it "
+                                 "(true members %s)" % (me, sorted(der - true), ch, sorted(true)))
+            for ch in list(chans):
+                if ch not in snap["users"][me]["channels"]:
+                    # the client was removed without being told (kicked / parted silently)
+                    self.violate("derived-roster", {"C04"}, exp.shape,
+                                 "%s was never told that it left %s" % (me, ch))
+                    chans.pop(ch)
 
     def check_relays(self, exp, got, pre):
         want = collections.defaultdict(list)
